@@ -377,7 +377,7 @@ func (vr *variableResolver) resolve(ctx *ExecutionContext) (*Value, error) {
 						if sv.IsNil() {
 							return AsValue(nil), nil
 						}
-						if sv.val.Type().AssignableTo(current.Type().Key()) {
+						if sv.val.Type().AssignableTo(current.Type().Key()) && sv.val.Type().Comparable() {
 							current = current.MapIndex(sv.val)
 						} else {
 							return AsValue(nil), nil
